@@ -1104,7 +1104,34 @@ func (env *SpecEnv) specCall(name string, args []ast.Expr) tv {
 	if len(ts) == 0 {
 		return tv{T: Term{name, sf.ret}}
 	}
-	return tv{T: mk(sf.ret, name, ts...)}
+	app := mk(sf.ret, name, ts...)
+	if sf.body != "" && env.st != nil {
+		// ground instance of the defining equation (skipped under binders)
+		closed := true
+		for _, bv := range env.bound {
+			if mentions(app.S, bv.T.S) {
+				closed = false
+			}
+		}
+		if env.st.unfolded == nil {
+			env.st.unfolded = map[string]bool{}
+		}
+		if closed && !env.st.unfolded[app.S] {
+			env.st.unfolded[app.S] = true
+			body := sf.body
+			// simultaneous substitution of parameters by argument terms
+			ph := make([]string, len(sf.params))
+			for i, p := range sf.params {
+				ph[i] = fmt.Sprintf("@@%d@@", i)
+				body = substToken(body, p, ph[i])
+			}
+			for i := range sf.params {
+				body = strings.ReplaceAll(body, ph[i], ts[i].S)
+			}
+			env.st.log = append(env.st.log, fmt.Sprintf("(assert (= %s %s))", app.S, body))
+		}
+	}
+	return tv{T: app}
 }
 
 
@@ -1267,4 +1294,30 @@ func mentions(s, v string) bool {
 		}
 		i = end
 	}
+}
+
+
+// substToken replaces whole-token occurrences of name in an s-expression text.
+func substToken(s, name, with string) string {
+	var b strings.Builder
+	i := 0
+	for i < len(s) {
+		j := strings.Index(s[i:], name)
+		if j < 0 {
+			b.WriteString(s[i:])
+			break
+		}
+		j += i
+		end := j + len(name)
+		okL := j == 0 || strings.ContainsRune(" ()", rune(s[j-1]))
+		okR := end == len(s) || strings.ContainsRune(" ()", rune(s[end]))
+		b.WriteString(s[i:j])
+		if okL && okR {
+			b.WriteString(with)
+		} else {
+			b.WriteString(name)
+		}
+		i = end
+	}
+	return b.String()
 }
